@@ -50,12 +50,32 @@ MANIFEST = {
 SCENARIOS = ["cache", "bulk", "torn", "certpool", "events", "evclose", "evquit", "diffdb", "diffnest", "syncfan"]
 
 
-def run_scenario(ck, binp, name, readers, ms, rounds, tag):
+BLOCKED_HDR = re.compile(r"^goroutine \d+ \[(semacquire|sync\.Mutex\.Lock|sync\.RWMutex\.R?Lock|chan receive|chan send|select|sync\.WaitGroup\.Wait|sync\.Cond\.Wait)")
+
+
+def blocked_in_code_under_test(dump):
+    """some goroutine waits on a lock/channel and the innermost frame that is neither runtime nor sync belongs to lisk-engine/pkg"""
+    for g in (dump or "").split("\n\n"):
+        lines = g.strip().splitlines()
+        if not lines or not BLOCKED_HDR.match(lines[0]):
+            continue
+        for fr in lines[1:]:
+            if fr.startswith("\t") or fr.startswith("created by"):
+                continue
+            if fr.startswith(("runtime.", "sync.", "internal/")):
+                continue
+            if "lisk-engine/pkg/" in fr:
+                return True
+            break
+    return False
+
+
+def run_scenario(ck, binp, name, readers, ms, rounds, tag, wd=5000):
     for f in glob.glob(os.path.join(ck.work, "race_%s.*" % tag)):
         os.remove(f)
     env = {"GORACE": "log_path=%s exitcode=0 halt_on_error=0" % os.path.join(ck.work, "race_" + tag)}
-    recs = ck.run_harness(binp, ["-scenario", name, "-readers", str(readers), "-ms", str(ms), "-rounds", str(rounds)],
-                          timeout=600, out_name=tag + ".jsonl", env_extra=env)
+    recs = ck.run_harness(binp, ["-scenario", name, "-readers", str(readers), "-ms", str(ms), "-rounds", str(rounds), "-watchdog", str(wd)],
+                          timeout=900, out_name=tag + ".jsonl", env_extra=env)
     params = {"scenario": name, "readers": readers, "ms": ms, "rounds": rounds, "seed": ck.seed}
     if recs is None:
         return
@@ -75,6 +95,20 @@ def run_scenario(ck, binp, name, readers, ms, rounds, tag):
                 return run_scenario(ck, binp, name, readers, ms, rounds, tag + "-retry")
             ck.fail_obligation("harness-internal:" + name, "scenario %s could not be set up twice (%s): inconclusive, rerun" % (name, r.get("what", "")[:300]))
             continue
+        # never a VIOLATION from load alone, never lose a real hang: a hang (or a sync round that timed out) is re-run once
+        # with a six times longer watchdog; the ORIGINAL stays a failure unless the re-run passes and the first run's dump
+        # shows no goroutine blocked on a lock/channel inside the code under test
+        timeoutish = r.get("hang") or (name == "syncfan" and "Sync returned" in str(r.get("what", "")))
+        if not r.get("ok", False) and timeoutish and not tag.endswith("-retry"):
+            mark = len(ck.failures)
+            run_scenario(ck, binp, name, readers, ms, rounds, tag + "-retry", wd=30000)
+            retry_ok = len(ck.failures) == mark
+            del ck.failures[mark:]
+            blocked = blocked_in_code_under_test(r.get("dump", ""))
+            if retry_ok and not blocked:
+                ck.notes.append("scenario %s: no progress within %d ms (%s), no goroutine blocked in the code under test, re-run with 30 s passed: "
+                                "treated as load" % (name, wd, str(r.get("what", ""))[:80]))
+                continue
         if not r.get("ok", False):
             details = [x for x in recs if x.get("sub")][:3]
             if r.get("hang"):
@@ -102,7 +136,10 @@ def run_scenario(ck, binp, name, readers, ms, rounds, tag):
     seen_sites = set()
     for txt in [x for rp in reports for x in rp.split("==================") if "DATA RACE" in x]:
         m = re.search(r"lisk-engine/(pkg/\S+?)\(\)", txt)
-        site = m.group(1) if m else ("harness" if "verifharness" in txt else "unknown")
+        site = m.group(1) if m else None
+        if site is None:  # a race inside the harness itself says nothing about the property
+            ck.fail_obligation("harness-race:" + name, "race report without a frame of the code under test (harness-internal): inconclusive: " + txt[:500])
+            continue
         if site in seen_sites:
             continue
         seen_sites.add(site)
